@@ -50,7 +50,7 @@ package ciexyz
 //@ func TransformToXYZForXYYPrimaries
 //@   mode real
 //@   requires nondegenerate: r.Y != 0 && g.Y != 0 && b.Y != 0 && whitePoint.Y != 0
-//@   requires noncollinear: ColorFromXYY(r).ToV()[0]*(ColorFromXYY(g).ToV()[1]*ColorFromXYY(b).ToV()[2] - ColorFromXYY(b).ToV()[1]*ColorFromXYY(g).ToV()[2]) - ColorFromXYY(g).ToV()[0]*(ColorFromXYY(r).ToV()[1]*ColorFromXYY(b).ToV()[2] - ColorFromXYY(b).ToV()[1]*ColorFromXYY(r).ToV()[2]) + ColorFromXYY(b).ToV()[0]*(ColorFromXYY(r).ToV()[1]*ColorFromXYY(g).ToV()[2] - ColorFromXYY(g).ToV()[1]*ColorFromXYY(r).ToV()[2]) != 0
+//@   requires noncollinear: det3(matrix.Matrix3{ColorFromXYY(r).ToV(), ColorFromXYY(g).ToV(), ColorFromXYY(b).ToV()}) != 0
 //@   ensures [C20] white: same(result.MulV(matrix.Vector3{1, 1, 1}), ColorFromXYY(whitePoint).ToV())
 //@   ensures [C20] red-chromaticity: result[0][0]*float64(r.Y) == float64(r.X)*result[0][1] && result[0][2]*float64(r.Y) == (1 - float64(r.X) - float64(r.Y))*result[0][1]
 //@   ensures [C20] green-chromaticity: result[1][0]*float64(g.Y) == float64(g.X)*result[1][1] && result[1][2]*float64(g.Y) == (1 - float64(g.X) - float64(g.Y))*result[1][1]
@@ -58,4 +58,47 @@ package ciexyz
 
 //@ func TransformFromXYZForXYYPrimaries
 //@   mode real
-//@   ensures [C20] is-inverse-call: true
+//@   requires nondegenerate: r.Y != 0 && g.Y != 0 && b.Y != 0 && whitePoint.Y != 0
+//@   requires noncollinear: det3(matrix.Matrix3{ColorFromXYY(r).ToV(), ColorFromXYY(g).ToV(), ColorFromXYY(b).ToV()}) != 0
+//@   requires white-not-on-edge: det3(TransformToXYZForXYYPrimaries(r, g, b, whitePoint)) != 0
+//@   ensures [C20] inverse-of-to: same(TransformToXYZForXYYPrimaries(r, g, b, whitePoint).MulM(result), matrix.Matrix3{{1, 0, 0}, {0, 1, 0}, {0, 0, 1}}) && same(result.MulM(TransformToXYZForXYYPrimaries(r, g, b, whitePoint)), matrix.Matrix3{{1, 0, 0}, {0, 1, 0}, {0, 0, 1}})
+
+// ---- C13: CIE L*a*b* (real arithmetic; cube root characterised by its defining axiom) ----
+
+//@ lemma [C13] constants mode=real (): constantE == 216.0/24389.0 && constantK == 24389.0/27.0
+
+//@ func componentToLAB
+//@   mode real
+//@   requires white-positive: wp > 0
+//@   ensures [C13] cie-f-upper: float64(v)/float64(wp) > 216.0/24389.0 ==> result > 0 && result*result*result == float64(v)/float64(wp)
+//@   ensures [C13] cie-f-lower: float64(v)/float64(wp) <= 216.0/24389.0 ==> result == (24389.0/27.0*(float64(v)/float64(wp)) + 16)/116
+
+//@ func componentFromLAB
+//@   mode real
+//@   ensures [C13] cie-finv-upper: f*f*f > 216.0/24389.0 ==> result == f*f*f
+//@   ensures [C13] cie-finv-lower: f*f*f <= 216.0/24389.0 ==> result == (116*f - 16)/(24389.0/27.0)
+
+//@ func Color.ToLAB
+//@   mode real
+//@   requires white-positive: whitePoint.X > 0 && whitePoint.Y > 0 && whitePoint.Z > 0
+//@   ensures [C13] L: float64(result.L) == 116*componentToLAB(c.Y, whitePoint.Y) - 16
+//@   ensures [C13] A: float64(result.A) == 500*(componentToLAB(c.X, whitePoint.X) - componentToLAB(c.Y, whitePoint.Y))
+//@   ensures [C13] B: float64(result.B) == 200*(componentToLAB(c.Y, whitePoint.Y) - componentToLAB(c.Z, whitePoint.Z))
+
+//@ lemma [C13] white-is-100-0-0 mode=real (w Color): w.X > 0 && w.Y > 0 && w.Z > 0 ==> w.ToLAB(w).L == 100 && w.ToLAB(w).A == 0 && w.ToLAB(w).B == 0
+//@ lemma [C13] neutral-axis mode=real (w Color, t float32): w.X > 0 && w.Y > 0 && w.Z > 0 ==> Color{t*w.X, t*w.Y, t*w.Z}.ToLAB(w).A == 0 && Color{t*w.X, t*w.Y, t*w.Z}.ToLAB(w).B == 0
+//@ lemma [C13] L-monotone mode=real (w Color, p Color, q Color): w.X > 0 && w.Y > 0 && w.Z > 0 && p.Y <= q.Y ==> real(p.ToLAB(w).L) <= real(q.ToLAB(w).L) + 0.000000001
+//@ lemma [C13] junction-continuous mode=real (wp float32, v float32): wp > 0 && real(v)/real(wp) == 216.0/24389.0 ==> abs(componentToLAB(v, wp) - 6.0/29.0) <= 0.000000001
+//@ lemma [C13] roundtrip-xyz-lab-xyz-X-hi-yhi mode=real (w Color, c Color): w.X > 0 && w.Y > 0 && w.Z > 0 && float64(c.X)/float64(w.X) > constantE && float64(c.Y)/float64(w.Y) > constantE ==> abs(real(ColorFromLAB(c.ToLAB(w), w).X) - real(c.X)) <= 0.000000001*real(w.X)
+//@ lemma [C13] roundtrip-xyz-lab-xyz-X-hi-ylo mode=real (w Color, c Color): w.X > 0 && w.Y > 0 && w.Z > 0 && float64(c.X)/float64(w.X) > constantE && float64(c.Y)/float64(w.Y) <= constantE ==> abs(real(ColorFromLAB(c.ToLAB(w), w).X) - real(c.X)) <= 0.000000001*real(w.X)
+//@ lemma [C13] roundtrip-xyz-lab-xyz-X-lo-yhi mode=real (w Color, c Color): w.X > 0 && w.Y > 0 && w.Z > 0 && float64(c.X)/float64(w.X) <= constantE && float64(c.Y)/float64(w.Y) > constantE ==> abs(real(ColorFromLAB(c.ToLAB(w), w).X) - real(c.X)) <= 0.000000001*real(w.X)
+//@ lemma [C13] roundtrip-xyz-lab-xyz-X-lo-ylo mode=real (w Color, c Color): w.X > 0 && w.Y > 0 && w.Z > 0 && float64(c.X)/float64(w.X) <= constantE && float64(c.Y)/float64(w.Y) <= constantE ==> abs(real(ColorFromLAB(c.ToLAB(w), w).X) - real(c.X)) <= 0.000000001*real(w.X)
+//@ lemma [C13] roundtrip-xyz-lab-xyz-Z-hi-yhi mode=real (w Color, c Color): w.X > 0 && w.Y > 0 && w.Z > 0 && float64(c.Z)/float64(w.Z) > constantE && float64(c.Y)/float64(w.Y) > constantE ==> abs(real(ColorFromLAB(c.ToLAB(w), w).Z) - real(c.Z)) <= 0.000000001*real(w.Z)
+//@ lemma [C13] roundtrip-xyz-lab-xyz-Z-hi-ylo mode=real (w Color, c Color): w.X > 0 && w.Y > 0 && w.Z > 0 && float64(c.Z)/float64(w.Z) > constantE && float64(c.Y)/float64(w.Y) <= constantE ==> abs(real(ColorFromLAB(c.ToLAB(w), w).Z) - real(c.Z)) <= 0.000000001*real(w.Z)
+//@ lemma [C13] roundtrip-xyz-lab-xyz-Z-lo-yhi mode=real (w Color, c Color): w.X > 0 && w.Y > 0 && w.Z > 0 && float64(c.Z)/float64(w.Z) <= constantE && float64(c.Y)/float64(w.Y) > constantE ==> abs(real(ColorFromLAB(c.ToLAB(w), w).Z) - real(c.Z)) <= 0.000000001*real(w.Z)
+//@ lemma [C13] roundtrip-xyz-lab-xyz-Z-lo-ylo mode=real (w Color, c Color): w.X > 0 && w.Y > 0 && w.Z > 0 && float64(c.Z)/float64(w.Z) <= constantE && float64(c.Y)/float64(w.Y) <= constantE ==> abs(real(ColorFromLAB(c.ToLAB(w), w).Z) - real(c.Z)) <= 0.000000001*real(w.Z)
+//@ lemma [C13] roundtrip-xyz-lab-xyz-Y-hi-hi mode=real (w Color, c Color): w.X > 0 && w.Y > 0 && w.Z > 0 && float64(c.Y)/float64(w.Y) > constantE && c.ToLAB(w).L > 8 ==> abs(real(ColorFromLAB(c.ToLAB(w), w).Y) - real(c.Y)) <= 0.000000001*real(w.Y)
+//@ lemma [C13] roundtrip-xyz-lab-xyz-Y-hi-implies-L-hi mode=real (w Color, c Color): w.X > 0 && w.Y > 0 && w.Z > 0 && float64(c.Y)/float64(w.Y) > constantE ==> c.ToLAB(w).L > 8
+//@ lemma [C13] roundtrip-xyz-lab-xyz-Y-lo-hi mode=real (w Color, c Color): w.X > 0 && w.Y > 0 && w.Z > 0 && float64(c.Y)/float64(w.Y) <= constantE && c.ToLAB(w).L > 8 ==> abs(real(ColorFromLAB(c.ToLAB(w), w).Y) - real(c.Y)) <= 0.000000001*real(w.Y)
+//@ lemma [C13] roundtrip-xyz-lab-xyz-Y-lo-lo mode=real (w Color, c Color): w.X > 0 && w.Y > 0 && w.Z > 0 && float64(c.Y)/float64(w.Y) <= constantE && c.ToLAB(w).L <= 8 ==> abs(real(ColorFromLAB(c.ToLAB(w), w).Y) - real(c.Y)) <= 0.000000001*real(w.Y)
+//@ lemma [C13] roundtrip-lab-xyz-lab mode=real (w Color, l cielab.Color): w.X > 0 && w.Y > 0 && w.Z > 0 && l.L >= -10 && l.L <= 110 && l.A >= -200 && l.A <= 200 && l.B >= -200 && l.B <= 200 ==> abs(real(ColorFromLAB(l, w).ToLAB(w).L) - real(l.L)) <= 0.000001 && abs(real(ColorFromLAB(l, w).ToLAB(w).A) - real(l.A)) <= 0.000001 && abs(real(ColorFromLAB(l, w).ToLAB(w).B) - real(l.B)) <= 0.000001
